@@ -43,7 +43,7 @@ example : Reachable (runOps State.init [.open, .open, .close 1, .close 1, .close
     (runOps State.init [.open, .open, .close 1, .close 1, .close 0]).uCloses = 1 ∧
     (runOps State.init [.open, .open, .close 1, .close 1]).uCloses = 0 := by
   refine ⟨?_, by decide, by decide⟩
-  exact Reachable.step _ (Reachable.step _ (Reachable.step _ (Reachable.step _ (Reachable.step _ Reachable.init
+  exact Reachable.step _ (Reachable.step _ (Reachable.step _ (Reachable.step _ (Reachable.step _ (Reachable.init false)
     (by decide)) (by decide)) (by decide)) (by decide)) (by decide)
 
 /-- The hypothesis of `Reachable` (no handle is requested for a connection that is already closed)
@@ -61,12 +61,18 @@ example : ∃ (s : State) (h : Nat) (hd : Handle), s.handles[h]? = some hd ∧ h
   ⟨runOps State.init [.open, .close 0], 0, _, rfl, rfl⟩
 
 /-- Sibling independence: closing handle `h` (a) makes every later read/write/deadline call on `h`
-fail and leaves no read of `h` parked (they all returned), and (b) changes the result of no I/O
-operation on any other handle `g` — in every reachable state, for every such operation. -/
+fail and leaves no read of `h` parked (they all returned), and (b) makes NO I/O operation on any other handle `g`
+fail — in every reachable state (either kind of underlying connection, whatever deadlines are set), for every such
+operation: reads, writes, `SetReadDeadline`, `SetWriteDeadline`, `SetDeadline` (`Op.isIOOn`): the result is the same
+as without the close, or (fix F33: a wrapper that armed the shared write deadline clears it when it goes) a write
+that timed out under that deadline succeeds now (`SameOrCleared`); and it IS the same whenever no write deadline was
+armed on the connection. -/
 theorem C13_sibling_independent {s : State} (hr : Reachable s) {h : Nat} (hlt : h < s.handles.length) :
     (∀ op, Op.isIOOn h op = true → (step (step s (.close h)).1 op).2 = Out.errClosed)
     ∧ (∃ hd, (step s (.close h)).1.handles[h]? = some hd ∧ hd.closed = true ∧ hd.pending = 0)
-    ∧ (∀ g op, g ≠ h → Op.isIOOn g op = true → (step (step s (.close h)).1 op).2 = (step s op).2) := by
+    ∧ (∀ g op, g ≠ h → Op.isIOOn g op = true →
+        SameOrCleared (step s op).2 (step (step s (.close h)).1 op).2
+        ∧ (s.wdlPast = false → (step (step s (.close h)).1 op).2 = (step s op).2)) := by
   refine ⟨fun op hop => (own_io_fails hr hlt hop).1, (own_io_fails hr hlt (op := .write h) (by simp [Op.isIOOn])).2,
     fun g op hne hop => sibling_independent hr hne hop⟩
 
@@ -79,19 +85,79 @@ example :
     ∧ (step (step s (.close 0)).1 (.read 0)).2 = Out.errClosed
     ∧ (step (step s (.close 0)).1 .feed).2 = Out.fed (some 1) := by decide
 
+/-- The `abortIO` sequence on handle `h` (`SetDeadline(now)`, `abortWrite`, `Close` — what a candidate does with
+its handle), in every reachable state and for EITHER kind of underlying connection (`udpMuxedConn` ignoring,
+`tcpPacketConn` honouring a forwarded write deadline): (a) every later I/O call on `h` fails closed and no read of
+`h` stays parked; (b) NO I/O operation on any other handle `g` fails because of it: the result is the same as without
+the abort, or a write that had timed out succeeds now; the same whenever no write deadline was armed before.
+(Full statement since fix F33; before it held only for the ignoring kind.) -/
+theorem C13_abort_sibling_independent {s : State} (hr : Reachable s) {h : Nat} (hlt : h < s.handles.length) :
+    (∀ op, Op.isIOOn h op = true → (step (step s (.abort h)).1 op).2 = Out.errClosed)
+    ∧ (∃ hd, (step s (.abort h)).1.handles[h]? = some hd ∧ hd.closed = true ∧ hd.pending = 0)
+    ∧ (∀ g op, g ≠ h → Op.isIOOn g op = true →
+        SameOrCleared (step s op).2 (step (step s (.abort h)).1 op).2
+        ∧ (s.wdlPast = false → (step (step s (.abort h)).1 op).2 = (step s op).2)) := by
+  refine ⟨fun op hop => (abort_own_io_fails hr hlt hop).1,
+    (abort_own_io_fails hr hlt (op := .write h) (by simp [Op.isIOOn])).2,
+    fun g op hne hop => abort_sibling_independent hr hne hop⟩
+
+-- regression example (the witness of finding F33 on the honouring kind, now the other way round): two handles,
+-- `abortIO` on handle 0 — the sibling's write still succeeds, so does a handle requested afterwards, and the
+-- register is not left armed; `SameOrCleared` is not vacuous: a deadline armed by handle 0 itself is cleared by its close
+example :
+    let s := runOps (State.initK true) [.open, .open]
+    Reachable s ∧ (step s (.write 1)).2 = Out.ok
+    ∧ (step (step s (.abort 0)).1 (.write 1)).2 = Out.ok
+    ∧ (runOps s [.abort 0, .write 1, .read 1, .open]).wdlPast = false
+    ∧ (step (runOps s [.abort 0, .open]) (.write 2)).2 = Out.ok
+    ∧ (step (runOps s [.setwd 0 true]) (.write 1)).2 = Out.errTimeout
+    ∧ (step (runOps s [.setwd 0 true, .close 0]) (.write 1)).2 = Out.ok := by
+  refine ⟨Reachable.step _ (Reachable.step _ (Reachable.init true) (by decide)) (by decide), ?_, ?_, ?_, ?_, ?_, ?_⟩ <;> decide
+
+/-- The write-deadline register of the underlying connection is armed only while an OPEN handle holds the deadline
+(its `writeDeadlineArmed` is set), or after the last handle has gone: a deadline does not outlive the handle that
+armed it — every reachable state, any number of handles, any operation order, either kind. -/
+theorem C13_deadline_not_outlive {s : State} (hr : Reachable s) (hw : s.wdlPast = true) :
+    s.fwd = true ∧ ((0 < s.handles.length ∧ nOpen s.handles = 0) ∨ 0 < nHeld s.handles) := by
+  have hi := winv_of_reachable hr
+  refine ⟨?_, hi.held hw⟩
+  cases hf : s.fwd with
+  | true => rfl
+  | false => have := hi.nofwd hf; rw [hw] at this; cases this
+
+example : ∃ s, Reachable s ∧ s.wdlPast = true ∧ nHeld s.handles = 1 :=
+  ⟨runOps (State.initK true) [.open, .open, .setwd 1 true],
+   Reachable.step _ (Reachable.step _ (Reachable.step _ (Reachable.init true) (by decide)) (by decide)) (by decide),
+   by decide, by decide⟩
+
 /-- Every behaviour of the handle model passes the spec monitor that the driver runs on the
-implementation's outputs: for any legal operation sequence (any length, any number of handles) the
+implementation's outputs: for any legal operation sequence (any length, any number of handles, either kind of
+underlying connection, all operations incl. the three deadline setters and `abortIO`) the
 observations produced by the model are accepted clause by clause by `sharedViolation` (underlying
-closed exactly at the last distinct close, repeated closes inert, own I/O fails after close and its
-parked reads are released, sibling I/O never fails as closed). -/
-theorem C13_shared_monitor (ops : List Op) (hl : legalRun State.init ops = true) :
-    sharedHistViolation {} (traceOf State.init ops) = none :=
-  monitor_run ops Reachable.init rel_init hl
+closed exactly at the last distinct close, repeated closes inert, own I/O fails after close / abort and its
+parked reads are released, sibling I/O never fails as closed, a read times out only under the handle's own read
+deadline, a write only under a write deadline that an OPEN handle holds).  Full statement again since fix F33. -/
+theorem C13_shared_monitor (fwd : Bool) (ops : List Op) (hl : legalRun (State.initK fwd) ops = true) :
+    sharedHistViolation {} (traceOf (State.initK fwd) ops) = none :=
+  monitor_run ops (Reachable.init fwd) (rel_init fwd) hl
+
+-- regression example: the trace that was rejected before the fix
+example :
+    legalRun (State.initK true) [.open, .open, .write 1, .abort 0, .write 1] = true
+    ∧ sharedHistViolation {} (traceOf (State.initK true) [.open, .open, .write 1, .abort 0, .write 1]) = none := by
+  constructor <;> decide
 
 -- non-vacuity: a legal run with observations of every kind; and the monitor does reject a wrong trace
 example : legalRun State.init [.open, .open, .read 0, .feed, .read 1, .close 1, .write 0, .close 0, .close 0] = true
     ∧ (traceOf State.init [.open, .open, .read 0, .feed, .read 1, .close 1, .write 0, .close 0, .close 0]).length = 9 := by
   decide
+-- … also with the new operations, on both kinds
+example : legalRun (State.initK false) [.open, .open, .setwd 0 true, .write 1, .abort 0, .write 1, .setd 1 true, .read 1, .abort 1] = true
+    ∧ legalRun (State.initK true) [.open, .open, .setwd 0 true, .write 1, .setd 1 false, .setrd 0 true, .read 0, .write 1, .abort 0, .write 1] = true := by
+  decide
+-- the monitor does reject a deadline that outlived its handle
+example : (sharedHistViolation {} [.opened 0, .opened 1, .aborted 0 .ok 0 0, .io 1 .write .errTimeout]).isSome = true
+    ∧ sharedHistViolation {} [.opened 0, .opened 1, .dl 0 false true true .ok, .io 1 .write .errTimeout] = none := by decide
 example : sharedHistViolation {} [.opened 0, .opened 1, .closed 0 1 0]
     = some "underlying connection closed while sibling handles are open" := by decide
 
